@@ -5,7 +5,7 @@ import numpy as np
 
 from harness import circgen as cg, logicsim_corr as lc, simcheck as sk, wavecheck as wk, wavesim_corr as wc, map_oracle as mo
 
-THEOREMS = ['C07_levels_valid', 'C07_any_order_in_level', 'C07_threads_once']
+THEOREMS = ['C07_levels_valid', 'C07_any_order_in_level', 'C07_threads_once', 'C07_build_ops_ssa']
 
 
 def permute_levels(sim, rng):
